@@ -554,12 +554,14 @@ impl Source {
 
     /// Return the Rules-Requires-Root field
     pub fn rules_requires_root(&self) -> Option<bool> {
+        // Besides yes/no the field may list keywords (e.g. "binary-targets"),
+        // which have no boolean reading
         self.0
             .get("Rules-Requires-Root")
-            .map(|s| match s.to_lowercase().as_str() {
-                "yes" => true,
-                "no" => false,
-                _ => panic!("invalid Rules-Requires-Root value"),
+            .and_then(|s| match s.to_lowercase().as_str() {
+                "yes" => Some(true),
+                "no" => Some(false),
+                _ => None,
             })
     }
 
